@@ -656,6 +656,9 @@ func (k *stubKey) AddCertsToAgent(certs []ssh.PublicKey, _ []string) error {
 
 // scriptedCA implements csr.Signer.
 type scriptedCA struct {
+	// ob: the observations of the run this CA object was made for. A call that outlives its run - the RA gave up on a
+	// slow CA, the call returns later - still belongs to that run, not to whichever run is current by then.
+	ob    *runObs
 	w     *world
 	run   *GRun
 	calls int
@@ -668,7 +671,7 @@ func (c *scriptedCA) Sign(ctx context.Context, req *proto.SSHCertificateSigningR
 	idx := c.calls
 	c.calls++
 	ob := caObs{seq: c.w.next(), req: gproto.Clone(req).(*proto.SSHCertificateSigningRequest), stub: strings.HasPrefix(req.GetKeyId(), "stub-csr")}
-	defer func() { c.w.cur.ca = append(c.w.cur.ca, ob) }()
+	defer func() { c.ob.ca = append(c.ob.ca, ob) }()
 	fail, pan := false, false
 	if c.run.CA.DelaySec > 0 {
 		time.Sleep(time.Duration(c.run.CA.DelaySec) * time.Second) // a slow CA (simulated clock)
@@ -685,7 +688,7 @@ func (c *scriptedCA) Sign(ctx context.Context, req *proto.SSHCertificateSigningR
 		if pan {
 			kind = "panic"
 		}
-		c.w.cur.faults = append(c.w.cur.faults, faultObs{seq: c.w.next(), site: "signer", fault: kind, phase: "sign", index: idx})
+		c.ob.faults = append(c.ob.faults, faultObs{seq: c.w.next(), site: "signer", fault: kind, phase: "sign", index: idx})
 		if pan {
 			panic(panicValue("scripted panic in signer", c.calls))
 		}
@@ -887,7 +890,7 @@ func (w *world) doRun(run *GRun, extra extraFault) *runObs {
 			handlers = append(handlers, &recHandler{inner: st, idx: i, w: w})
 		}
 	}
-	ca := &scriptedCA{w: w, run: run, failCall: extra.signerAt, failPanic: extra.signerPan}
+	ca := &scriptedCA{ob: ob, w: w, run: run, failCall: extra.signerAt, failPanic: extra.signerPan}
 	w.phase = "start"
 	ctx, cancel := context.WithTimeout(context.Background(), 60*time.Second)
 	func() {
